@@ -183,6 +183,9 @@ func genConcPlan(prop string, seed uint64, thorough bool) *Plan {
 	// back, write here) while the others flush
 	latedb := twodb && g.chance(3)
 	toggle := prop == "C08" && !twodb && g.chance(4)
+	// a collection large enough for an implementation to treat it differently
+	// (lazy reclamation, chunked copies): removed and re-created under load
+	bigcoll := prop == "C08" && !twodb && g.chance(5)
 	// a short sequential prologue creates the typed keys
 	var pro []Item
 	for _, t := range types {
@@ -207,6 +210,13 @@ func genConcPlan(prop string, seed uint64, thorough bool) *Plan {
 	}
 	// deterministic order of the prologue
 	sortItems(pro)
+	if bigcoll {
+		a := []string{"RPUSH", "big"}
+		for j := 0; j < 80; j++ {
+			a = append(a, "b"+strconv.Itoa(j))
+		}
+		pro = append(pro, cmdItem(a...))
+	}
 	pro = append(pro, Item{Op: "barrier", N: 1})
 	p.Clients = append(p.Clients, Client{Name: "setup", Items: pro})
 	for c := 0; c < nc; c++ {
@@ -271,6 +281,25 @@ func genConcPlan(prop string, seed uint64, thorough bool) *Plan {
 				}
 				continue
 			}
+			if bigcoll && g.chance(3) {
+				switch g.r.IntN(6) {
+				case 0, 1:
+					items = append(items, cmdItem(g.pick("UNLINK", "UNLINK", "DEL"), "big"))
+				case 2:
+					items = append(items, cmdItem("RPUSH", "big", g.val(), g.val()))
+				case 3:
+					a := []string{"RPUSH", "big"}
+					for j := 0; j < 70; j++ {
+						a = append(a, "r"+strconv.Itoa(j))
+					}
+					items = append(items, cmdItem(a...))
+				case 4:
+					items = append(items, cmdItem("LLEN", "big"))
+				default:
+					items = append(items, cmdItem("LRANGE", "big", "0", "1"))
+				}
+				continue
+			}
 			if toggle && g.chance(2) {
 				// all-or-nothing visibility of multi-key commands: a group of names is
 				// created and removed as a whole, and looked at as a whole
@@ -321,6 +350,9 @@ func genConcPlan(prop string, seed uint64, thorough bool) *Plan {
 	}
 	if toggle {
 		obsKeys = append(append([]string{}, obsKeys...), "n0", "n1", "n2")
+	}
+	if bigcoll {
+		obsKeys = append(append([]string{}, obsKeys...), "big")
 	}
 	if twodb {
 		p.Clients = append(p.Clients, observation(obsKeys, 2, 0, otherDb))
